@@ -503,7 +503,10 @@ class GraphMLProp(props.BaseProp):
                         for u, v, w in c["edges"])
 
     def case_json(self, c):
-        return {k: v for k, v in c.items() if not k.startswith("_")}
+        j = {k: v for k, v in c.items() if not k.startswith("_")}
+        if "doc" in j:
+            j["doc_text"] = bytes(j["doc"]).decode("utf-8", "replace")   # for the reader; "doc" (bytes) is what is replayed
+        return j
 
     def case_from_json(self, j):
         c = dict(j)
@@ -716,19 +719,22 @@ C14 = props.register(GraphMLProp(
     "file), read back with the same specs; non-trivial = the graph was built and has >= 1 edge (codec: string contains a special "
     "character); distinct = distinct case text"))
 C14.manifest = {
-    "text": "Proved (unbounded, axiom-free): unescape(escape s) = s for EVERY string, escaped text contains no markup character and "
-            "ampersands only as the five predefined references; the reader model applied to the writer model's events returns "
-            "exactly the constructor applied to the written node list, edge list (weights as identical tokens) and directedness "
-            "(C14_roundtrip_elements, under the oracle hypothesis parse(escape(fmt w)) = w); hence the round trip is the identity "
-            "up to `rebuild' (constructor applied to a graph's own content). Validated per generated graph on the implementation: "
-            "node order, directedness, edge multiset with bit-identical weights after write+read (string and file), file bytes = "
-            "string bytes; the writer model's events = quick-xml's tokens of the real document; model reader on those tokens = real "
-            "read-back.",
-    "note": "Modelled, not verified: quick-xml tokenizer/serializer (the model runs on quick-xml's own events of the real document), "
-            "Rust f64 Display/FromStr (sampled: bit-exact on every exponent and 40k/2M random patterns per run). rebuild-same "
-            "(new_from_nodes_and_edges on a graph's own nodes/edges gives the same graph) is validated per case, not proved. "
-            "Axioms: none.",
-    "technique": "Coq proof (structural induction) + differential correspondence vs vm_compute model + implementation-level round-trip oracle",
+    "text": "Proved (unbounded, axiom-free): unescape(escape s) = s for EVERY string (C14_escape_roundtrip), escaped text contains "
+            "no markup character and ampersands only as the five predefined references (C14_escape_no_markup, C14_escape_form); the "
+            "reader model applied to the writer model's events hands the constructor exactly the written node list, edge list "
+            "(weights as identical tokens) and directedness, for all names and weights (C14_roundtrip_elements); hence write-then-read "
+            "= the constructor on the graph's own content (C14_roundtrip_partial), it never panics (C14_roundtrip_no_panic), and for "
+            "every graph with distinct names whose edges join its own nodes the names come back in the same order with the same specs / "
+            "directedness (C14_roundtrip_nodes_specs). Validated per generated graph on the implementation (oracle independent of the "
+            "model): node order, directedness, edge multiset with bit-identical weights after write+read, string and file variant, file "
+            "bytes = string bytes; plus: writer model's events = quick-xml's tokens of the real document, model reader on those tokens = "
+            "real read-back, model round trip returns the same graph.",
+    "note": "Hypotheses of the round-trip theorems are the two float oracles (Display emits no markup; FromStr inverts Display), "
+            "satisfiable (roundtrip_hyps_satisfiable) and sampled every run against Rust's std (every exponent x 8 mantissas x 2 signs "
+            "+ 40k/2M random bit patterns, bit-equality). Modelled, not verified: quick-xml tokenizer/serializer (the model runs on "
+            "quick-xml's own events of the real document). NOT proved: the edge-multiset clause of rebuild (constructor on a "
+            "well-formed graph's own edge list stores exactly that multiset) - validated per case. Axioms: none.",
+    "technique": "Coq proof (structural induction, invariants) + differential correspondence vs vm_compute model + implementation-level round-trip oracle",
 }
 
 C19 = props.register(GraphMLProp(
@@ -742,15 +748,19 @@ C19 = props.register(GraphMLProp(
     "wrong root, comments / PI / CDATA / DOCTYPE fragments, non-numeric weight text); every call under a 10 s watchdog; specs: "
     "permissive or drawn from all 96; non-trivial = the document has at least one start/empty tag; distinct = distinct case text"))
 C19.manifest = {
-    "text": "Proved (unbounded, axiom-free) about the transcribed event loop, for EVERY event sequence quick-xml can hand to it and "
-            "every parse oracle: the loop terminates (structural) and never reaches one of its remaining unwrap sites "
-            "(edges.last_mut().unwrap(), guarded get().unwrap()); its result is ReadError exactly when the document is refused by the "
-            "declarative element definition (Spec/GraphMLDef.v) and otherwise the node elements in order, the edge elements in order "
-            "with their weight data, and the declared directedness; the graph is the constructor applied to them. Validated per "
-            "document: outcome kind and graph equal the model run on quick-xml's events of the same document; never panic / hang; Ok "
-            "graphs are valid for the specs; generated well-formed GraphML yields exactly its elements.",
-    "note": "Modelled, not verified: quick-xml's tokenizer (a panic or hang inside it is covered only by the document stream, incl. "
-            "every single-point corruption of the seeds). Panic-freedom of Graph::new_from_nodes_and_edges itself is C01/C20 "
-            "territory: see the theorem list for what is proved here. Axioms: none.",
-    "technique": "Coq proof (invariant over the event loop) + differential correspondence vs vm_compute model on quick-xml events + oracle",
+    "text": "Proved (unbounded, axiom-free) about the transcription of read_graphml_string (event loop + Graph::new_from_nodes_and_edges), "
+            "for EVERY event sequence quick-xml can hand to it, every behaviour of str::parse::<f64> and every GraphSpecs: it returns a "
+            "value or an error, never reaches one of the unwrap / index sites kept in the model, never runs out of fuel (C19_total; the "
+            "constructor's own panic-freedom for any name type is C19_constructor_no_panic); the only errors are ReadError and the "
+            "constructor's three (C19_error_kinds); the result is ReadError exactly when the document is refused by the declarative "
+            "element definition (Spec/GraphMLDef.v) and otherwise the constructor applied to exactly the node elements in order, the edge "
+            "elements in order with their weight data, under the supplied specs with the declared directedness (C19_ok_content, "
+            "C19_ok_directed). Validated per document: outcome kind and graph equal the model run on quick-xml's events of the same "
+            "document; never panic / hang (10 s watchdog); Ok graphs are valid for the specs; generated well-formed GraphML yields exactly "
+            "its elements; constructor result agrees with the spec layer (Spec/AGraph.v spec_new_from) on every case.",
+    "note": "Model of the code AFTER the F12 fix commit b5a873a (the pinned tree panicked on 4 input classes; confirmed, repaired). "
+            "Modelled, not verified: quick-xml's tokenizer (a panic or hang inside it is covered only by the document stream: every "
+            "single-byte truncation/deletion/duplication/replacement of the seeds, grammar documents). The refinement constructor-model -> "
+            "spec_new_from is validated per case (observation 8), not proved here. Axioms: none.",
+    "technique": "Coq proof (invariants over the event loop and the constructor) + differential correspondence vs vm_compute model on quick-xml events + oracle",
 }
